@@ -15,6 +15,8 @@ Decided (structural):
    previous pair* into the next pair (one conjunction of equations, not independent tests);
    the `implied` predicate of normalisation is false for a stored constraint of another kind
    (map_or(false, ..) / is_some_and / match .. None => false).
+ (round 5) every unbound variable of the answer - the anonymous `_` included - enters the reifying map
+   (fresh-any-per-var, with C03), so purify keeps the disequalities keyed on it.
 """
 import streams
 import sym
@@ -367,4 +369,6 @@ def run(ctx, fb, cfg):
 
     C03.check_reify_threading(ctx, lib, R + "K3.reify-threads")
     C03.check_is_anyvar(ctx, lib, R + "K6.is-anyvar")
+    # ... `_` included: every unbound variable of the answer, whatever its name, enters the reifying map
+    C03.check_smap_reify_var(ctx, lib, R + "K3.fresh-any-per-var")
     traversal.run_table(ctx, lib, R + "K5.traversal", only=["SMap::reify", "is_anyvar"])
